@@ -300,13 +300,44 @@ def scenario(fst, name):
         f.body[0].value.left.replace('x + y')
         obs.append(('e2', f.src))
 
+    # options taken from a block / from set_options / from the defaults must act exactly like the same options passed per call;
+    # judged inside each thread (so it is meaningful for the solo run too, which also runs in a non-main thread)
+    def t_cblock(obs):
+        with FST.options(pars=False, norm=True):
+            g, h = FST('t = {z}', 'exec'), FST('t = {z}', 'exec')
+            g.body[0].value.elts[0].remove()
+            h.body[0].value.elts[0].remove(norm=True, pars=False)
+            obs.append(('block==call', g.src == h.src, g.src, h.src))
+
+    def t_cset(obs):
+        FST.set_options(norm=True, pars_arglike=False)
+        g, h = FST('t = {z}\nf(*not a)', 'exec'), FST('t = {z}\nf(*not a)', 'exec')
+        g.body[0].value.elts[0].remove()
+        h.body[0].value.elts[0].remove(norm=True)
+        c1 = g.body[1].value.args[0].copy()
+        c2 = h.body[1].value.args[0].copy(pars_arglike=False)
+        obs.append(('set==call', (g.src, c1.src) == (h.src, c2.src), g.src, h.src, c1.src, c2.src))
+
+    def t_cdefault(obs):
+        g, h = FST('t = {z}', 'exec'), FST('t = {z}', 'exec')
+        g.body[0].value.elts[0].remove()
+        h.body[0].value.elts[0].remove(norm=False)
+        obs.append(('default==call', g.src == h.src, g.src, h.src))
+
     table = {
+        'consistency': [t_cblock, t_cset, t_cdefault],
         'block+default': [t_block, t_default],
         'set+exc': [t_set, t_exc],
         'block+set+default': [t_block, t_set, t_default],
         'exc+default': [t_exc, t_default],
     }
     return table[name]
+
+
+def inconsistent(all_obs):
+    """observations (tag '...==call', bool, ...) that are not True"""
+    return [o for obs in all_obs for o in obs if isinstance(o, tuple) and len(o) > 1 and isinstance(o[0], str) and o[0].endswith('==call')
+            and o[1] is not True]
 
 
 def solo(fst, name):
@@ -328,6 +359,9 @@ SHARED_FUNCS = ('set_options', 'options', 'get_options', 'get_option', 'check_op
 def run_sched(fst, name, bound, gran, part, res, restricted=False):
     FST = fst.FST
     want = solo(fst, name)
+    if inconsistent(want) and (part is None or part[0] == 0):
+        res.fail(f'C20/sched/{name}/solo', 'thread-level-options-differ-from-per-call-options', f'{inconsistent(want)}', {'scenario': name},
+                 {'scenario': name, 'gran': gran, 'choices': []})
     main_before = FST.get_options()
     n = {'exec': 0}
 
@@ -499,6 +533,8 @@ def shards(tier):
     for name in ('block+default', 'set+exc', 'exc+default') + (('block+set+default',) if tier == 'thorough' else ()):
         for r in range(12):  # every schedule with <= 1 preemption at every pfst function call
             out.append({'kind': 'sched', 'scenario': name, 'bound': 1, 'gran': 'call', 'part': [r, 12]})
+    for r in range(2):  # per-call == per-block == per-thread-default, three threads, <= 1 preemption inside option functions
+        out.append({'kind': 'sched', 'scenario': 'consistency', 'bound': 1, 'gran': 'call', 'part': [r, 2], 'restricted': True})
     if tier == 'quick':  # three threads: all non-preemptive orders + <= 1 preemption inside option/registry functions
         for r in range(4):
             out.append({'kind': 'sched', 'scenario': 'block+set+default', 'bound': 1, 'gran': 'call', 'part': [r, 4],
@@ -522,7 +558,22 @@ def run_shard(desc, tier, res):
     elif k == 'oplevel':
         run_oplevel(fst, res)
     elif k == 'proto':
-        protocol_bfs(fst, desc['depth'], tuple(desc['part']), res)
+        if desc['part'][0] % 2:  # half of the histories run in a non-main thread (the option store is thread-local: whatever is
+            import threading    # bound to the importing thread at import time must not be what other threads read)
+            err = []
+
+            def body():
+                try:
+                    protocol_bfs(fst, desc['depth'], tuple(desc['part']), res)
+                except BaseException as e:  # noqa: BLE001
+                    err.append(e)
+            th = threading.Thread(target=body)
+            th.start()
+            th.join()
+            if err:
+                raise err[0]
+        else:
+            protocol_bfs(fst, desc['depth'], tuple(desc['part']), res)
     else:
         run_sched(fst, desc['scenario'], desc['bound'], desc['gran'], tuple(desc['part']), res, desc.get('restricted', False))
 
